@@ -145,6 +145,11 @@ def run_case(ctx, rep, spec, gradp, reactions, floor, source, model, start=None,
             rep.tie(f"level header text of levels {diff} differs from the Lean renderer (whose parse-after-render law is proved)", case)
         else:
             rep.agree()
+        why = writers.global_header_theorem_applies(out, leanio)
+        if why:
+            rep.tie(f"global header of the converted plotfile: {why} (whose parse-after-render law is proved)", case)
+        else:
+            rep.agree(); rep.count("header-theorem-applies")
     m = leanio.driver([{"op": "chk2plt", "levels": lvrecs, "gradp": gradp, "reactions": reactions, "gradp_tags": gt, "ir_tags": it}])[0]
     ok = True
     for lv in range(nlev):
